@@ -1367,11 +1367,20 @@ class Nexus(object):
             )
 
         # add dependent node `name` as a parent of each node in `depends_on`
+        _old_children = list(_node.get_children())
         for _dep in depends_on:
             _node.add_child(self.get(_dep))
 
         # check for cycles
-        NodeCycleChecker(_node).run()
+        try:
+            NodeCycleChecker(_node).run()
+        except ValueError:
+            # roll back: a rejected dependency must not remain in the graph
+            _new_children = [_c for _c in _node.get_children() if _c not in _old_children]
+            _node._children = _old_children
+            for _c in set(_new_children):
+                _c.remove_parent(_node)
+            raise
 
     def get(self, node_name):
         """Retrieve a node by its name or ``None`` if no such node exists.
